@@ -189,6 +189,16 @@ type c02Case struct {
 	primDir   string
 	primClock int64
 	keyN      int
+	// reference log of everything the history ever wrote (c02reload.go); oracle over what Open reloads
+	ref *c02RefLog
+	// next own commit uses exactly these entries (same-size generator of the stale-tail cases)
+	shapeNext []c02Entry
+	// stale-tail cases: keep the options that decide whether/what is reloaded stable across reopens
+	stable bool
+	// replica flavour of the stale-tail cases: only the next tx of the primary is replicated
+	repNextOnly bool
+	// after a simulated crash the file state depends on flush timing: oracle only, no model lines
+	noCorr bool
 }
 
 func (c *c02Case) replay() interface{} {
@@ -198,6 +208,9 @@ func (c *c02Case) replay() interface{} {
 func (c *c02Case) log(f string, a ...interface{}) { c.ops = append(c.ops, fmt.Sprintf(f, a...)) }
 
 func (c *c02Case) corr(op, impl string) {
+	if c.noCorr {
+		return
+	}
 	c.r.Corr("c02 "+op, impl)
 	c.r.Count("answer." + strings.SplitN(strings.SplitN(op, " ", 2)[0], ":", 2)[0] + "." + strings.SplitN(impl, " ", 2)[0])
 }
@@ -300,6 +313,8 @@ func (c *c02Case) after(where string) {
 		c.corr("sync", c02ErrClass(err))
 	}
 	c.stateLine()
+	// the reference log learns what the step wrote / discarded (independent of the model)
+	c.refLog().sync(c)
 	// verify BEFORE collecting late acks: the record of a tx is what the history shows when it is first
 	// reported committed; an ack must then agree with it
 	n := c.hist.verify(c.r, c.st, c.cfg, c.replay, where)
@@ -436,12 +451,20 @@ func (c *c02Case) opOwn() {
 	case x < 34:
 		kind = "cancelled"
 	}
-	es := c.genEntries(n, withMd)
+	shaped := c.shapeNext != nil
+	if shaped {
+		kind, n, withMd = "shaped", len(c.shapeNext), false
+	}
+	es := c.shapeNext
+	c.shapeNext = nil
+	if !shaped {
+		es = c.genEntries(n, withMd)
+	}
 	if kind == "v0-kvmd" {
 		es[c.rng.Intn(len(es))].md = c.genKVMd()
 	}
 	var txmd *store.TxMetadata
-	if cfg.version == 1 && n > 0 && c.rng.Chance(15) {
+	if cfg.version == 1 && n > 0 && !shaped && c.rng.Chance(15) {
 		txmd = store.NewTxMetadata().WithTruncatedTxID(uint64(1 + c.rng.Intn(5)))
 	}
 	hasPre, preOk := false, true
@@ -753,6 +776,7 @@ func (c *c02Case) opRepPrimary() {
 	kind := "next"
 	id := pid + 1
 	switch x := c.rng.Intn(100); {
+	case c.repNextOnly:
 	case x < 12 && pid > 0:
 		kind, id = "dup", 1+uint64(c.rng.Intn(int(pid)))
 	case x < 20:
@@ -827,6 +851,10 @@ func (c *c02Case) opDiscard() {
 	default:
 		kind, t = "beyond", pid+1
 	}
+	c.doDiscard(t, kind)
+}
+
+func (c *c02Case) doDiscard(t uint64, kind string) {
 	c.r.Count("op.discard." + kind)
 	before := c.hist.snapshotCommitted()
 	n, err := c.st.DiscardPrecommittedTxsSince(t)
@@ -870,6 +898,10 @@ func (c *c02Case) opAllow() {
 	default:
 		t = cid + uint64(c.rng.Intn(int(pid-cid)+1))
 	}
+	c.doAllow(t)
+}
+
+func (c *c02Case) doAllow(t uint64) {
 	c.r.Count("op.allow")
 	err := c.st.AllowCommitUpto(t)
 	out := c02ErrClass(err)
@@ -988,13 +1020,13 @@ func (c *c02Case) opReopen() {
 	if c.rng.Chance(25) {
 		c.cfg.synced = !c.cfg.synced
 	}
-	if c.rng.Chance(25) {
+	if c.rng.Chance(25) && !c.stable {
 		c.cfg.maxActive = []int{1, 2, 3, 5, 20}[c.rng.Intn(5)]
 	}
-	if c.rng.Chance(20) {
+	if c.rng.Chance(20) && !c.stable {
 		c.cfg.ext = !c.cfg.ext
 	}
-	if c.rng.Chance(20) {
+	if c.rng.Chance(20) && !c.stable {
 		c.cfg.version = c.rng.Intn(2)
 	}
 	if c.rng.Chance(20) {
@@ -1010,6 +1042,8 @@ func (c *c02Case) opReopen() {
 		c.st = nil
 		return
 	}
+	// model-independent oracle over what Open reloaded (committed and pre-committed txs)
+	c.refLog().reopened(c, false)
 	c.after("reopen")
 }
 
@@ -1369,7 +1403,7 @@ func (c *c02Case) runConcurrent(writers, perWriter int) {
 
 func runC02(r *hx.Result, rng *hx.Rng, thorough bool, replay string) error {
 	r.Rule = "one evaluation = one step of a case (op kind × outcome class × configuration) followed by a full re-read of the committed history"
-	budget := 50 * time.Second
+	budget := 44 * time.Second
 	if thorough {
 		budget = 11 * time.Minute
 	}
@@ -1409,10 +1443,13 @@ func runC02(r *hx.Result, rng *hx.Rng, thorough bool, replay string) error {
 		if abortRun || (onlyCase > 0 && c.caseID != onlyCase) {
 			return
 		}
+		if k := os.Getenv("VERIF_C02_KIND"); k != "" && k != c.kind {
+			return // debugging aid: run the cases of one kind only
+		}
 		c.dir = hx.TempDir("c02")
 		os.RemoveAll(c.dir)
 		caseStart := time.Now()
-		if c.kind == "replica" {
+		if c.kind == "replica" || strings.HasSuffix(c.kind, "-replica") {
 			c.primDir = hx.TempDir("c02p")
 			os.RemoveAll(c.primDir)
 			pc := *c.cfg
@@ -1455,6 +1492,9 @@ func runC02(r *hx.Result, rng *hx.Rng, thorough bool, replay string) error {
 		r.Count("case." + c.kind)
 		if os.Getenv("VERIF_C02_TIMING") != "" {
 			fmt.Fprintf(os.Stderr, "case %d %s steps=%d reads=%d %.2fs %s\n", c.caseID, c.kind, c.steps, c.hist.txReads, time.Since(caseStart).Seconds(), c.cfg.label())
+		}
+		if os.Getenv("VERIF_C02_OPS") != "" {
+			fmt.Fprintf(os.Stderr, "case %d %s %s\n  %s\n", c.caseID, c.kind, c.cfg.label(), strings.Join(c.ops, "\n  "))
 		}
 		histReads += c.hist.reads
 		txReads += c.hist.txReads
@@ -1499,10 +1539,38 @@ func runC02(r *hx.Result, rng *hx.Rng, thorough bool, replay string) error {
 		c := mk("sequential")
 		runCase(c, func() { c.runSequential(30) })
 	}
+	// stale-tail cases (branch histories over several lives of one store, same-size txs), up front: the
+	// scripted resynchronisation workflow a few times, one random branch history of each flavour
+	for k := 0; k < 5; k++ {
+		c := mk("stale-tail-script")
+		runCase(c, c.runStaleTailScript)
+	}
+	{
+		c := mk("stale-tail")
+		runCase(c, func() { c.runStaleTail(4) })
+	}
+	{
+		c := mk("stale-tail-replica")
+		runCase(c, func() { c.runStaleTail(4) })
+	}
 	i := 0
 	for time.Since(start) < budget && !abortRun {
 		i++
 		switch {
+		case i%3 == 1 && i%2 == 0:
+			kind := "stale-tail"
+			if i%12 == 10 {
+				kind = "stale-tail-replica"
+			}
+			c := mk(kind)
+			n := 3 + c.rng.Intn(4)
+			if thorough {
+				n += 3
+			}
+			runCase(c, func() { c.runStaleTail(n) })
+		case i%3 == 1:
+			c := mk("stale-tail-script")
+			runCase(c, c.runStaleTailScript)
 		case i%7 == 3:
 			c := mk("concurrent")
 			w, per := 2+c.rng.Intn(5), 4+c.rng.Intn(8)
@@ -1529,9 +1597,9 @@ func runC02(r *hx.Result, rng *hx.Rng, thorough bool, replay string) error {
 	r.Extra["history_rereads"] = histReads
 	r.Extra["tx_reads"] = txReads
 	r.Extra["steps"] = steps
-	r.Extra["cases"] = i + 9
+	r.Extra["cases"] = i + 16
 	if r.Distribution["answer.own.tx"] == 0 || r.Distribution["op.reopen"] == 0 || r.Distribution["case.concurrent"] == 0 {
-		if onlyCase < 0 && !abortRun {
+		if onlyCase < 0 && !abortRun && os.Getenv("VERIF_C02_KIND") == "" {
 			r.Inconclusive = append(r.Inconclusive, "generator collapsed: no successful commits / reopen / concurrent cases")
 		}
 	}
